@@ -891,7 +891,7 @@ fn gen_state(r: &mut Rng) -> Gen {
             b
         }
         "m.room.join_rules" => {
-            let rule = *r.pick(&["public", "invite", "knock", "private", "restricted", "knock_restricted"]);
+            let rule = *r.pick(&["public", "invite", "knock", "private", "restricted", "knock_restricted", "org.example.rule"]);
             let b = B::new().req("join_rule", json!(rule));
             if rule == "restricted" || rule == "knock_restricted" {
                 match r.below(3) {
